@@ -518,6 +518,10 @@ def row_order(repo, fi: FunctionInfo, e: ast.expr, defs: Dict[str, ast.expr], de
             return row_order(repo, fi, defs[e.id], defs, depth + 1)
         if e.id in fi.params:
             return KEPT, f"input `{e.id}`"
+        # u, inverse = unique(values, return_inverse=True): the first element is the (sorted) array of unique values
+        for st in walk_no_nested(fi.node):
+            if isinstance(st, ast.Assign) and len(st.targets) == 1 and isinstance(st.targets[0], ast.Tuple) and st.targets[0].elts and isinstance(st.targets[0].elts[0], ast.Name) and st.targets[0].elts[0].id == e.id and isinstance(st.value, ast.Call) and call_name(st.value) == "unique":
+                return row_order(repo, fi, ast.Call(func=st.value.func, args=st.value.args, keywords=[]), defs, depth + 1)
         return UNKNOWN, f"name {e.id}"
     if isinstance(e, ast.Attribute):
         if e.attr in ("index", "values", "T"):
@@ -554,6 +558,8 @@ def row_order(repo, fi: FunctionInfo, e: ast.expr, defs: Dict[str, ast.expr], de
                 src = e.args[0] if e.args else (f.value if isinstance(f, ast.Attribute) else None)
                 return row_order(repo, fi, src, defs, depth + 1) if src is not None else (UNKNOWN, "unique")
             return UNKNOWN, "unique"
+        if name == "Series" and kwarg(e, "index") is not None:
+            return row_order(repo, fi, kwarg(e, "index"), defs, depth + 1)
         if name in ("list", "array", "tuple", "Series", "Index"):
             return row_order(repo, fi, e.args[0], defs, depth + 1) if e.args else (UNKNOWN, name)
         if name == "fromkeys":
